@@ -159,9 +159,9 @@ func (c *compiler) compileImport(i *Import) error {
 			return fmt.Errorf("module not found: %q", path)
 		}
 		c.append(&code{op: oppush, v: vals})
-		c.append(&code{op: opstore, v: c.pushVariable(alias)})
+		c.append(&code{op: opstore, v: c.createVariable(alias)})
 		c.append(&code{op: oppush, v: vals})
-		c.append(&code{op: opstore, v: c.pushVariable(alias + "::" + alias[1:])})
+		c.append(&code{op: opstore, v: c.createVariable(alias + "::" + alias[1:])})
 		return nil
 	}
 	var q *Query
